@@ -1,5 +1,5 @@
 (* C15 -- the generator compiles any supported-dialect schema into a conforming codec.
-   Statements only; proofs are in Cats/DialectProofs.v.  The round-trip / size / layout / canonical-order theorems of C01, C02 and C12 are stated
+   Statements only; proofs are in Cats/DialectProofs.v and Cats/DialectKeyProofs.v.  The round-trip / size / layout / canonical-order theorems of C01, C02 and C12 are stated
    over the layout interpreter for ANY schema term; this file adds what "schema of the dialect" means on the model side:
    wf_schema (Cats/Dialect.v), a boolean, fuel-free check of an expanded schema -- every reference resolves to an EARLIER declaration (no by-value
    cycle), widths in {1,2,4,8}, size/count members unsigned, declared before and binding exactly one array, sizeof targets size-implicit structs,
@@ -46,7 +46,8 @@ Print Assumptions wf_no_unsupported_deserialize_field.
 
 (* whole codecs -- serialize, size, deserialize, factory deserialize: for a well-formed schema, ANY value, ANY buffer, ANY type name, ANY
    nesting fuel -- never Unsupported.  Premise: the sort-key view does not answer Unsupported (it does only for a comparer member holding a value
-   of the wrong shape, which no admissible value has). *)
+   of the wrong shape, which no admissible value has).  PARTIAL because of that premise; the FULL theorem is wf_no_unsupported at the end of
+   this file (dialect = wf_schema_full, values = value_admissible, no premise on the key view). *)
 Theorem wf_no_unsupported_partial : forall OP tm, wf_schema tm = true ->
   (forall fuel t v, key OP tm fuel t v <> Crash "Unsupported") ->
   forall fuel t v b,
@@ -86,7 +87,7 @@ Qed.
 
 (* PARTIAL: the premise on `key` holds for every schema without a @comparer struct (proved above) but is false for schemas that have
    one (see the refutation example below): the FULL statement - the same conclusion for every well-formed schema with the premise
-   restricted to comparer members holding values of their declared shape - is not proved.
+   restricted to comparer members holding values of their declared shape - is wf_no_unsupported at the end of this file.
    non-vacuity of wf_no_unsupported_partial on the shipped SYMBOL schema: it is well-formed and has no @comparer struct, so the key premise
    holds and the conclusion is obtained for every fuel, type name, value and buffer *)
 Example wf_no_unsupported_nonvacuous_on_symbol :
@@ -138,3 +139,92 @@ Example field_premises_nonvacuous :
      end.
 Proof. split; [repeat split; discriminate|]. split; [repeat split; discriminate|]. vm_compute. split; reflexivity. Qed.
 Print Assumptions field_premises_nonvacuous.
+
+(* ================= the whole codecs WITHOUT the premise on the key view (proofs: Cats/DialectKeyProofs.v) =================
+   Why the premise of wf_no_unsupported_partial fails on NEM: Layout.key, on a @comparer struct, reads each untransformed member of a named type
+   (enum / alias) and answers Unsupported when the value found there is not an int / byte string; wf_schema's `comparer` condition already
+   restricts the DECLARATION (members exist, transforms only on byte aliases, untransformed members are int / enum / alias), so what is left is a
+   value ground: an object carrying, say, a byte string where the enum value belongs.  The premise of the partial theorem quantifies over all
+   values and is therefore false for every schema with such a comparer.  Two additions remove it:
+   - value_admissible (Cats/DialectKeys.v): a boolean SHAPE check of a value tree against the classes it names (int / bytes / list / object of
+     the declared class or of a child of a declared abstract class; None only under a conditional member) - no ranges, lengths, enum membership
+     or order, so every value the property calls admissible passes it;
+   - wf_keys (Cats/DialectKeys.v), a boolean condition on top of wf_schema (wf_schema itself is unchanged): for a @comparer struct, every
+     untransformed named-type member is unconditional and is what deserialize binds under that name; for a @sort_key array, the elements are
+     concrete, a struct-typed key member is not abstract, and what the element's deserialize binds under the key's name has the key's type.
+     Both shipped schemas satisfy it (kernel computation on the regenerated terms).
+   With these, serialize of every ADMISSIBLE value, and size / deserialize / factory-deserialize of EVERY value and buffer, never answer
+   Unsupported.  On the decode side no premise on values is needed: the proof shows that what the decoders bind is what the key view reads. *)
+From Symv Require Import Cats.DialectKeys Cats.DialectKeyProofs.
+
+Theorem wf_full_shipped : wf_schema_full sc_schema = true /\ wf_schema_full nc_schema = true.
+Proof. exact wf_full_shipped_both. Qed.
+Print Assumptions wf_full_shipped.
+
+(* the sort-key view is total on admissible values of the member type (t not an abstract struct: such a member never is a sort key) *)
+Theorem key_total_on_admissible : forall OP tm, wf_schema_full tm = true -> forall fuel t v,
+  value_admissible tm v = true -> v = VNull \/ named_shape tm t v = true -> abs_name tm t = false ->
+  key OP tm fuel t v <> Crash "Unsupported".
+Proof. exact key_admissible_total. Qed.
+Print Assumptions key_total_on_admissible.
+
+(* ... and on whatever T.deserialize returns, for every buffer (fuels independent) *)
+Theorem key_total_on_decoded : forall OP tm, wf_schema_full tm = true -> forall fuel j t b v,
+  dec OP tm j t b = Ok v -> key OP tm fuel t v <> Crash "Unsupported".
+Proof. exact key_decoded_total. Qed.
+Print Assumptions key_total_on_decoded.
+
+(* FULL: whole codecs of a schema of the dialect - serialize of any admissible value, size of ANY value, deserialize and factory deserialize
+   of ANY buffer, any type name, any nesting fuel - never Unsupported; no premise on the key view *)
+Theorem wf_no_unsupported : forall OP tm, wf_schema_full tm = true ->
+  forall fuel t b,
+    (forall v, value_admissible tm v = true -> enc OP tm fuel t v <> Crash "Unsupported")
+    /\ (forall v, size OP tm fuel t v <> Crash "Unsupported")
+    /\ dec OP tm fuel t b <> Crash "Unsupported" /\ decf OP tm fuel t b <> Crash "Unsupported".
+Proof. exact codecs_no_unsupported_full. Qed.
+Print Assumptions wf_no_unsupported.
+
+(* non-vacuity on the shipped NEM schema (the one the partial theorem says nothing about): the schema is in the full dialect; a multisig account
+   modification transaction with two modifications in comparer order is admissible, serializes (so the key view was consulted and answered),
+   and what deserialize returns for those bytes is admissible again; the conclusion instantiated *)
+Example wf_no_unsupported_nonvacuous_on_nem :
+  wf_schema_full nc_schema = true /\ value_admissible nc_schema ex_nem_good = true
+  /\ is_ok (enc ops_now nc_schema type_fuel "NonVerifiableMultisigAccountModificationTransactionV1" ex_nem_good) = true
+  /\ redecodes nc_schema "NonVerifiableMultisigAccountModificationTransactionV1" ex_nem_good = true
+  /\ (forall fuel t b,
+        (forall v, value_admissible nc_schema v = true -> enc ops_now nc_schema fuel t v <> Crash "Unsupported")
+        /\ (forall v, size ops_now nc_schema fuel t v <> Crash "Unsupported")
+        /\ dec ops_now nc_schema fuel t b <> Crash "Unsupported" /\ decf ops_now nc_schema fuel t b <> Crash "Unsupported").
+Proof. exact nonvacuous_on_nem. Qed.
+Print Assumptions wf_no_unsupported_nonvacuous_on_nem.
+
+(* the same on the shipped Symbol schema: an embedded transfer whose mosaics are sorted by mosaic_id *)
+Example wf_no_unsupported_nonvacuous_on_symbol_full :
+  wf_schema_full sc_schema = true /\ value_admissible sc_schema ex_sym_tx = true
+  /\ is_ok (enc ops_now sc_schema type_fuel "EmbeddedTransferTransactionV1" ex_sym_tx) = true
+  /\ redecodes sc_schema "EmbeddedTransferTransactionV1" ex_sym_tx = true
+  /\ (forall fuel t b,
+        (forall v, value_admissible sc_schema v = true -> enc ops_now sc_schema fuel t v <> Crash "Unsupported")
+        /\ (forall v, size ops_now sc_schema fuel t v <> Crash "Unsupported")
+        /\ dec ops_now sc_schema fuel t b <> Crash "Unsupported" /\ decf ops_now sc_schema fuel t b <> Crash "Unsupported").
+Proof. exact nonvacuous_on_symbol. Qed.
+Print Assumptions wf_no_unsupported_nonvacuous_on_symbol_full.
+
+(* the admissibility premise on the serialized value cannot be dropped IN THE MODEL: the NEM transaction above with a byte string in place of the
+   enum value of modification_type is not admissible and drives serialize into Unsupported (the generated Python raises AttributeError when it
+   serializes that member; the model labels the ill-shaped comparer read Unsupported) *)
+Example wf_no_unsupported_all_values_refuted_on_nem :
+  wf_schema_full nc_schema = true /\ value_admissible nc_schema ex_nem_ill = false
+  /\ enc ops_now nc_schema type_fuel "NonVerifiableMultisigAccountModificationTransactionV1" ex_nem_ill = Crash "Unsupported"
+  /\ ~ (forall fuel t v, enc ops_now nc_schema fuel t v <> Crash "Unsupported").
+Proof. exact all_values_refuted_on_nem. Qed.
+Print Assumptions wf_no_unsupported_all_values_refuted_on_nem.
+
+(* non-vacuity of key_total_on_admissible: the comparer view of a NEM MultisigAccountModification *)
+Example key_total_nonvacuous_on_nem :
+  let v := VStruct "MultisigAccountModification" [("modification_type", VInt 1%Z); ("cosignatory_public_key", VBytes [1%Z])] in
+  wf_schema_full nc_schema = true /\ value_admissible nc_schema v = true /\ named_shape nc_schema "MultisigAccountModification" v = true
+  /\ abs_name nc_schema "MultisigAccountModification" = false
+  /\ is_ok (key ops_now nc_schema 1 "MultisigAccountModification" v) = true.
+Proof. exact key_nonvacuous_on_nem. Qed.
+Print Assumptions key_total_nonvacuous_on_nem.
